@@ -42,7 +42,7 @@ func init() {
 		Run:          Run,
 		MaxSteps:     60000,
 		YieldFiles:   []string{"stats/collector.go"},
-		QuickRuns:    16000,
+		QuickRuns:    12000,
 		ThoroughSecs: 600,
 		Rule: "one run = generated scripts for 2–6 recorder tasks (≤ 20 sessions each: TCP / UDP with both halves, anonymous and up to 6 named users, 1–2 servers) " +
 			"and 1–2 observer tasks (≤ 20 operations each: Snapshot, SnapshotAndReset, GET stats with/without clear, GET user, POST user) under one seeded schedule with " +
@@ -412,7 +412,7 @@ type userGet struct {
 // mapOrderSeeded says that the simulator seeds the runtime's map iteration order per run (the
 // overlay patches runtime.maps_rand). Without that, runs with statement-level pre-emption must be
 // limited to two named users per server and their figures kept out of the event log.
-const mapOrderSeeded = false
+const mapOrderSeeded = true
 
 var byteMenu = []uint64{0, 1, 2, 1500, 65535, 1 << 20, 1<<32 + 5, 1 << 40, 3}
 var pktMenu = []uint64{0, 1, 2, 7, 1000, 1 << 33}
